@@ -195,7 +195,11 @@ def run_async(desc, tier, seed, res):
         if (width, value) not in qframes:
             return None           # units answer queries only
         return [("ok", (idx * 29 + 3) % 256), None, ("collision", 0x55), ("ok", 255), ("ok", 0)][idx % 5]
-    qframes = {(len(c.frame), c.frame.as_integer) for c in cmds if c.response is not None}
+    # application extended opcodes mean different commands under different device types: a frame is answered only if every
+    # command of this run that uses it is a query (a unit answering a frame whose sender expects nothing would leave an
+    # answer behind that the gateway hands to the next command - the harness' doing, not the driver's)
+    qframes = {(len(c.frame), c.frame.as_integer) for c in cmds if c.response is not None} - \
+        {(len(c.frame), c.frame.as_integer) for c in cmds if c.response is None}
     sim = simlib.Sim(driver, picker, answer=answer, random_mode=desc.get("random"))
     marks = []
     results = {}
@@ -346,7 +350,8 @@ def run_async(desc, tier, seed, res):
                 ok = (isinstance(raw, F.BackwardFrame) and raw.error) if driver in ("tridonic", "hasseb") else raw is None
             if type(val) is not c.response or not ok:
                 res.violation(f"C18/{driver}/report-decoding/{'none' if ans is None else ans[0]}",
-                              f"{c}: the gateway reported {ans} for this command, the driver returned {type(val).__name__} with raw {raw!r}",
+                              f"{c}: the gateway reported {ans} for this command, the driver returned {type(val).__name__} with raw "
+                              f"{raw!r}" + (f" (value {raw.as_integer:#04x}, error {raw.error})" if hasattr(raw, "as_integer") else ""),
                               {"driver": driver, "command": str(c)})
         for nbits, outcome, nw in bad_len:
             res.evaluations += 1
